@@ -220,6 +220,17 @@ Fixpoint no_break_s (s : stmt) : bool :=
   end.
 Definition no_break (p : list stmt) : bool := forallb no_break_s p.
 
+(* no cond chain of p tests a (negated) count jump *)
+Fixpoint no_cnt_chain_s (s : stmt) : bool :=
+  match s with
+  | SLoop _ b => forallb no_cnt_chain_s b
+  | SChain bs els =>
+      forallb (fun cb => match fst cb with CCnt _ _ _ => false | _ => true end && forallb no_cnt_chain_s (snd cb)) bs
+      && match els with None => true | Some b => forallb no_cnt_chain_s b end
+  | _ => true
+  end.
+Definition no_cnt_chain (p : list stmt) : bool := forallb no_cnt_chain_s p.
+
 (* every label reference (goto destinations, offsetof/timeof), whole function, as get_label_refcounts *)
 Fixpoint refs_s (s : stmt) : list nat :=
   match s with
@@ -256,6 +267,7 @@ Record guards := {
   g_if_time : bool;     (* _gather_cond_chain: if_jmp.time_arg.is_some() *)
   g_if_dir : bool;      (* ... if_jmp backwards *)
   g_if_rc : bool;       (* ... if_jmp.dest_refcount > 1 *)
+  g_if_cnt : bool;      (* as_binop_cond: a count jump `--x > 0` is not a candidate (absent today: finding c07-count-jump-negation) *)
   g_un_time : bool;     (* ... uncond_jmp.time_arg.is_some() *)
   g_un_kind : bool;     (* ... !matches!(uncond_jmp.kind, Uncond) *)
   g_un_dir : bool;      (* ... uncond_jmp backwards *)
@@ -268,7 +280,7 @@ Record guards := {
 }.
 Definition guards_on : guards :=
   {| g_diff := true; g_loop_time := true; g_loop_intr := true; g_if_time := true; g_if_dir := true;
-     g_if_rc := true; g_un_time := true; g_un_kind := true; g_un_dir := true; g_end_same := true; g_end_last := true;
+     g_if_rc := true; g_if_cnt := true; g_un_time := true; g_un_kind := true; g_un_dir := true; g_end_same := true; g_end_last := true;
      g_else_order := true; g_chain_intr := true; g_brk_time := true; g_brk_same := true |}.
 
 (* get_label_info: index of the label statement within this block (HashMap collect: the last one wins) *)
@@ -361,6 +373,7 @@ Section IfElse.
         else match j_kind ifj with
         | JU => None
         | JC c =>
+          if g_if_cnt G && match c with CCnt _ _ _ => true | _ => false end then None else
           match neg_cond negcmp c with
           | None => None
           | Some nc =>
